@@ -182,7 +182,7 @@ section Grid
 variable {α : Type} [Field α] [LinearOrder α] [IsStrictOrderedRing α] [FloorRing α]
 
 /-- exact-arithmetic instance of the number operations -/
-def exactOps : Ops α := ⟨Nat.cast, Nat.ceil, 0⟩
+def exactOps : Ops α := ⟨Nat.cast, Nat.ceil, 0, 1 / 2⟩
 
 /-- the grid is `lower, lower+precision, lower+2·precision, …` -/
 theorem grid_eq_map (tol lo hi p : α) :
@@ -278,8 +278,37 @@ theorem spaceSize_eq_prod {β : Type} (gs : List (List β)) :
     | cons g gs ih => intro acc; simp [ih, Nat.mul_assoc]
   simpa using this 1
 
-/-- With the code's *absolute* tolerance the "ends at the upper bound" clause needs `tol ≤ precision`:
-for a precision below the tolerance the grid overshoots the bound by more than one step (known finding). -/
+/-- the code's end-point tolerance is positive and at most half a step -/
+theorem codeTol_bounds (tolMax p : α) (ht : 0 < tolMax) (hp : 0 < p) :
+    0 < codeTol exactOps tolMax p ∧ codeTol exactOps tolMax p ≤ p / 2 ∧ codeTol exactOps tolMax p ≤ tolMax := by
+  unfold codeTol
+  have hh : (exactOps : Ops α).half = 1 / 2 := rfl
+  by_cases h : (exactOps : Ops α).half * p < tolMax
+  · rw [if_pos h]; rw [hh] at h ⊢; exact ⟨by positivity, by linarith, h.le⟩
+  · rw [if_neg h]; rw [hh] at h; push_neg at h; exact ⟨ht, by linarith, le_refl _⟩
+
+/-- **the grid the code builds** (tolerance `min(tolMax, precision/2)`), for every positive precision: when the
+range is a multiple of the precision it has exactly `m + 1` points and ends at the upper bound itself -/
+theorem code_grid_hits_bound (tolMax lo hi p : α) (m : ℕ) (ht : 0 < tolMax) (hp : 0 < p) (hm : hi - lo = (m : α) * p) :
+    (grid exactOps (codeTol exactOps tolMax p) lo hi p).length = m + 1 ∧
+    (grid exactOps (codeTol exactOps tolMax p) lo hi p).getLast? = some hi := by
+  obtain ⟨h0, h1, _⟩ := codeTol_bounds tolMax p ht hp
+  exact grid_hits_bound _ lo hi p m hp hm h0 (by linarith)
+
+/-- in general it ends at the last step not beyond the upper bound, up to the tolerance: every element is below
+`upper + min(tolMax, precision/2)`, and one more step would not be -/
+theorem code_grid_last (tolMax lo hi p : α) (ht : 0 < tolMax) (hp : 0 < p) :
+    (∀ x ∈ grid exactOps (codeTol exactOps tolMax p) lo hi p, lo ≤ x ∧ x < hi + tolMax ∧ x < hi + p / 2) ∧
+    (∀ n, (grid exactOps (codeTol exactOps tolMax p) lo hi p).length = n → hi < lo + (n : α) * p) := by
+  obtain ⟨h0, h1, h2⟩ := codeTol_bounds tolMax p ht hp
+  obtain ⟨ha, hb⟩ := grid_last (codeTol exactOps tolMax p) lo hi p hp
+  refine ⟨fun x hx => ?_, fun n hn => ?_⟩
+  · obtain ⟨a, b⟩ := ha x hx; exact ⟨a, by linarith, by linarith⟩
+  · have := hb n hn; linarith
+
+/-- **repaired defect**: with the pinned code's *absolute* tolerance 1e-7 the "ends at the upper bound" clause
+needed `tol ≤ precision`; for a precision below the tolerance the grid overshot the bound by more than one step.
+With the code's tolerance the same specification ends at the bound. -/
 theorem grid_overshoots_small_precision :
     let g := grid (α := ℚ) exactOps (1/10000000) 0 (1/1000000) (1/40000000)
     g.length = 44 ∧ g.getLast? = some (43/40000000) ∧ (1/1000000 : ℚ) + 1/40000000 < 43/40000000 := by
@@ -292,6 +321,11 @@ theorem grid_overshoots_small_precision :
     simp only [List.map_append, List.map_cons, List.map_nil]
     rw [List.getLast?_append]
     norm_num
+
+theorem small_precision_repaired :
+    let g := grid (α := ℚ) exactOps (codeTol exactOps (1/10000000) (1/40000000)) 0 (1/1000000) (1/40000000)
+    g.length = 41 ∧ g.getLast? = some (1/1000000) :=
+  code_grid_hits_bound (α := ℚ) (1/10000000) 0 (1/1000000) (1/40000000) 40 (by norm_num) (by norm_num) (by norm_num)
 
 /-! ### non-vacuity -/
 example : checkBounds (0 : ℤ) [[0, 0], [1, 2]] [1, 2] = .ok () := by decide
